@@ -81,8 +81,9 @@ func (e *Engine) evalCall(cx *ast.CallExpr, st *State) Value {
 		el := sig.Params().At(np - 1).Type().(*types.Slice).Elem()
 		if _, isIface := el.Underlying().(*types.Interface); isIface {
 			// ...any: arguments are evaluated for their effects only
+			e.lastAnyArgs = nil
 			for i := np - 1; i < len(cx.Args); i++ {
-				e.eval(cx.Args[i], st)
+				e.lastAnyArgs = append(e.lastAnyArgs, e.eval(cx.Args[i], st))
 			}
 			args = append(args, VSlice{Arr: e.fresh("anyargs", arraySort(SInt, SRef)), Len: mkInt(int64(len(cx.Args) - np + 1)), Elem: el})
 			return e.callFunc(fn, recv, args, cx, st)
